@@ -28,6 +28,8 @@ func init() {
 			{"C07.HOLDER", "zzControlBad_C07_HOLDER", true},
 			{"C07.HOLDER", "zzControlGood_C07_HOLDER", false},
 			{"C07.POSTCOMMIT", "zzControlBad_C07_POSTCOMMIT", true},
+			{"C07.INDEXBUCKETERR", "zzControlBad_C07_INDEXBUCKETERR", true},
+			{"C07.INDEXBUCKETERR", "zzControlGood_C07_INDEXBUCKETERR", false},
 		},
 	})
 }
